@@ -281,7 +281,7 @@ def jax_T(lh, pos, sizes, draw_kwargs=None, point_estimates=()):
 # classic side
 # --------------------------------------------------------------------------------------------------
 
-def dense_op(domain, target, mat, real_domain=True):
+def dense_op(domain, target, mat, real_domain=True, inv=None):
     """Rectangular dense matrix as a classic LinearOperator (MatrixProductOperator is square-only).
     A complex matrix on a real domain is the real-linear map x -> M x; its adjoint is Re(M^H y)."""
     import nifty.cl as ift
@@ -291,13 +291,20 @@ def dense_op(domain, target, mat, real_domain=True):
             self._domain = ift.DomainTuple.make(domain)
             self._target = ift.DomainTuple.make(target)
             self._mat = np.asarray(mat)
+            self._inv = None if inv is None else np.asarray(inv)
             self._capability = self.TIMES | self.ADJOINT_TIMES
+            if inv is not None:       # square, explicitly invertible (exact inverse supplied)
+                self._capability |= self.INVERSE_TIMES | self.ADJOINT_INVERSE_TIMES
 
         def apply(self, x, mode):
             self._check_input(x, mode)
             v = x.asnumpy() if hasattr(x, "asnumpy") else x.val
             if mode == self.TIMES:
                 return ift.makeField(self._target, self._mat @ v)
+            if mode == self.INVERSE_TIMES:
+                return ift.makeField(self._domain, self._inv @ v)
+            if mode == self.ADJOINT_INVERSE_TIMES:
+                return ift.makeField(self._target, self._inv.conj().T @ v)
             out = self._mat.conj().T @ v
             if real_domain and np.iscomplexobj(out):
                 out = out.real.copy()
@@ -315,9 +322,18 @@ def classic_ops(lg, nonlinear=False):
     if lg.is_complex:     # real diagonal noise, complex sampling dtype (real and imaginary part have variance N each)
         Ninv = ift.DiagonalOperator(ift.makeField(tgt, np.diag(lg.impl("Ninv")).copy()), sampling_dtype=np.complex128)
         Wop = None
+        Nop = ift.DiagonalOperator(ift.makeField(tgt, np.diag(lg.impl("N")).copy()), sampling_dtype=np.complex128)
+    elif lg.case["noise"] == "dense":
+        # correlated noise given as a sandwich N = Wi^T 1 Wi with an invertible, non-unitary bun (for
+        # WienerFilterCurvature: samples of N.inverse come from SandwichOperator.draw_sample(from_inverse=True));
+        # GaussianEnergy needs an EndomorphicOperator, it gets the sandwich W^T W = N^-1
+        Nop = ift.SandwichOperator.make(dense_op(tgt, tgt, lg.f("Wi"), inv=lg.f("W")), None, np.float64)
+        Wop = dense_op(tgt, tgt, lg.f("W"))
+        Ninv = ift.SandwichOperator.make(Wop, None, np.float64)
     else:
         Wop = dense_op(tgt, tgt, lg.f("W"))
         Ninv = ift.SandwichOperator.make(Wop, None, np.float64)      # W^T W, can draw samples
+        Nop = ift.DiagonalOperator(ift.makeField(tgt, np.diag(lg.f("N")).copy()), sampling_dtype=np.float64)
     d = ift.makeField(tgt, lg.impl("d"))
     if nonlinear:
         Qop = dense_op(dom, tgt, lg.impl("Q"))
@@ -325,7 +341,7 @@ def classic_ops(lg, nonlinear=False):
         sig = ift.Adder(c) @ (Rop + Qop @ (ift.ScalingOperator(dom, 1.).ptw("power", 2)))
     else:
         sig = Rop
-    return {"dom": dom, "tgt": tgt, "R": Rop, "W": Wop, "Ninv": Ninv, "d": d, "signal": sig}
+    return {"dom": dom, "tgt": tgt, "R": Rop, "W": Wop, "Ninv": Ninv, "N": Nop, "d": d, "signal": sig}
 
 
 @contextlib.contextmanager
